@@ -20,6 +20,12 @@ func sessionCheckWith(prop, tier, module, mcCfg, dumpCfg string, extraNote strin
 	if extra != nil {
 		extraStates, extraCases = extra(run)
 	}
+	if prop == "C03" {
+		// the repository's own tests under the observer invariants (envelope only cleared with Reset/Logout)
+		rc, rev := repoTestTraces(run, map[string]bool{"C03": true})
+		fmt.Printf("C03: %d connections (%d hook events) of the repository's own test suite validated by TLC against the observer invariants\n", rc, rev)
+		extraCases += rc
+	}
 	mc := modelCheck(module, mcCfg, 16)
 	gs := dumpEdges(module, dumpCfg)
 	if module == "MC_Session" {
